@@ -313,7 +313,30 @@ func init() {
 			return done(e.sprintf(a[0].(*Str), a[1].(Slice)))
 		},
 		"fmt.Errorf": func(e *Exec, t *Thread, a []Value, g bool) (Value, bool) {
-			return done(e.opaqueError("fmt.Errorf"))
+			// the text is opaque; the errors wrapped with %w are remembered for errors.Is/Unwrap
+			res := e.opaqueError("fmt.Errorf").(Iface)
+			if f, ok := a[0].(*Str); ok {
+				if fs, ok := e.concreteStr(f); ok && strings.Contains(fs, "%w") {
+					if args, ok := a[1].(Slice); ok {
+						errT := types.Universe.Lookup("error").Type().Underlying().(*types.Interface)
+						for i := 0; i < args.Len; i++ {
+							if iv, ok := e.sliceElem(args, i).(Iface); ok && iv.T != nil && types.Implements(iv.T, errT) {
+								o := res.V.(Ptr).Obj
+								e.wrapped[o] = append(e.wrapped[o], iv)
+							}
+						}
+					}
+				}
+			}
+			return done(res)
+		},
+		"errors.Unwrap": func(e *Exec, t *Thread, a []Value, g bool) (Value, bool) {
+			if iv, ok := a[0].(Iface); ok && iv.T != nil {
+				if p, ok := iv.V.(Ptr); ok && p.Obj != nil && len(e.wrapped[p.Obj]) == 1 {
+					return done(e.wrapped[p.Obj][0])
+				}
+			}
+			return done(Iface{})
 		},
 		"fmt.Sprint":   func(e *Exec, t *Thread, a []Value, g bool) (Value, bool) { return done(e.opaqueStr("fmt.Sprint")) },
 		"fmt.Sprintln": func(e *Exec, t *Thread, a []Value, g bool) (Value, bool) { return done(e.opaqueStr("fmt.Sprintln")) },
@@ -712,8 +735,19 @@ func init() {
 		"(*net.conn).Close":    netClose,
 
 		"errors.Is": func(e *Exec, t *Thread, a []Value, g bool) (Value, bool) {
-			// identity comparison (sentinel errors); wrapped errors are opaque here
-			return done(e.ifaceEq(a[0].(Iface), a[1].(Iface)))
+			// identity along the chain of errors wrapped by fmt.Errorf("%w") (Is methods are not consulted)
+			target := a[1].(Iface)
+			var walk func(err Iface, depth int) *term.T
+			walk = func(err Iface, depth int) *term.T {
+				r := e.ifaceEq(err, target)
+				if p, ok := err.V.(Ptr); ok && p.Obj != nil && depth < 8 {
+					for _, w := range e.wrapped[p.Obj] {
+						r = e.C.BOr(r, walk(w, depth+1))
+					}
+				}
+				return r
+			}
+			return done(walk(a[0].(Iface), 0))
 		},
 		"(*strings.Builder).copyCheck": func(e *Exec, t *Thread, a []Value, g bool) (Value, bool) { return done(nil) },
 		"(*strings.Builder).String": func(e *Exec, t *Thread, a []Value, g bool) (Value, bool) {
